@@ -1,0 +1,83 @@
+// SPDX-FileCopyrightText: Copyright (c) 2022-2025 Objectionary.com
+// SPDX-License-Identifier: MIT
+
+//! Verification hooks, compiled only with the cargo feature `verif`.
+//!
+//! Nothing in this module changes the behaviour of [`Sodg`]: the snapshot
+//! is a read-only copy of the internal state in plain types.
+
+use crate::{Hex, Label, Persistence, Sodg};
+
+/// A plain copy of one vertex slot.
+#[derive(Clone, Debug, PartialEq, Eq, Hash)]
+pub struct VertexSnap {
+    /// The group tag: 0 = absent, 1 = present but ungrouped, 2.. = group.
+    pub branch: usize,
+    /// 0 = empty, 1 = stored (unread), 2 = taken (read).
+    pub persistence: u8,
+    /// Is the data kept on the heap?
+    pub heap: bool,
+    /// The bytes of the data.
+    pub data: Vec<u8>,
+    /// The raw inline array, including the padding (empty for heap data).
+    pub raw: Vec<u8>,
+    /// Edges, in their order of enumeration.
+    pub edges: Vec<(Label, usize)>,
+}
+
+/// A plain copy of the entire internal state of a [`Sodg`].
+#[derive(Clone, Debug, PartialEq, Eq, Hash)]
+pub struct Snapshot {
+    /// All vertex slots, present or not.
+    pub vertices: Vec<Option<VertexSnap>>,
+    /// All member lists of all groups, in order.
+    pub branches: Vec<Option<Vec<usize>>>,
+    /// All counters of unread data, per group.
+    pub stores: Vec<Option<usize>>,
+    /// The position of the id allocator.
+    pub next_v: usize,
+}
+
+impl<const N: usize> Sodg<N> {
+    /// Make a read-only copy of the entire internal state.
+    #[must_use]
+    pub fn verif_snapshot(&self) -> Snapshot {
+        let cap = self.vertices.capacity();
+        let mut vertices = Vec::with_capacity(cap);
+        for v in 0..cap {
+            vertices.push(self.vertices.get(v).map(|vtx| VertexSnap {
+                branch: vtx.branch,
+                persistence: match vtx.persistence {
+                    Persistence::Empty => 0,
+                    Persistence::Stored => 1,
+                    Persistence::Taken => 2,
+                },
+                heap: matches!(vtx.data, Hex::Vector(_)),
+                data: vtx.data.bytes().to_vec(),
+                raw: match &vtx.data {
+                    Hex::Vector(_) => vec![],
+                    Hex::Bytes(a, _) => a.to_vec(),
+                },
+                edges: vtx.edges.iter().map(|(a, t)| (*a, *t)).collect(),
+            }));
+        }
+        let mut branches = vec![];
+        for b in 0..self.branches.capacity() {
+            branches.push(
+                self.branches
+                    .get(b)
+                    .map(|m| m.into_iter().collect::<Vec<usize>>()),
+            );
+        }
+        let mut stores = vec![];
+        for b in 0..self.stores.capacity() {
+            stores.push(self.stores.get(b).copied());
+        }
+        Snapshot {
+            vertices,
+            branches,
+            stores,
+            next_v: self.next_v,
+        }
+    }
+}
